@@ -370,6 +370,18 @@ class Check(Property):
                              f"the conversion gives {want}")
             except Exception as exc:  # noqa: BLE001
                 v.append(f"C17 wraps(None, {dst!r}) called with {t} {src}: raised {type(exc).__name__}: {exc}")
+        # a default that is an array quantity is converted like an argument
+        import numpy as np
+        uf = regs.ureg("float")
+
+        def fdef(x, y=uf.Quantity(np.array([1.0, 2.0]), "meter")):
+            return y
+        try:
+            ry = uf.wraps(None, ("meter", "centimeter"))(fdef)(uf.Quantity(1.0, "meter"))
+            if list(np.asarray(ry)) != [100.0, 200.0]:
+                v.append(f"C17 wraps(None, ('meter', 'centimeter')) with the default y = [1, 2] meter: the function received {ry!r}")
+        except Exception as exc:  # noqa: BLE001
+            v.append(f"C17 wraps with an array-quantity default that is used: raised {type(exc).__name__}: {exc}")
         # a conversion only an active context allows: inside the context the rule applies, outside the call is refused
         g = u.wraps(None, "terahertz")(lambda x: got.append(x) or x)
         q = u.Quantity(Fraction(rng.randint(100, 900)), "nanometer")
